@@ -141,7 +141,7 @@ func (r *sortReg) structSort(named types.Type, st *types.Struct) string {
 	// Library structs with unexported internals (sync.Mutex, atomic.*, time.Time...) are opaque.
 	if n, ok := named.(*types.Named); ok && n.Obj().Pkg() != nil {
 		p := n.Obj().Pkg().Path()
-		if !strings.Contains(p, "thought-machine/please") && !strings.HasPrefix(p, "govc") {
+		if !strings.Contains(p, "thought-machine/please") && !strings.HasPrefix(p, "govc") && !modelledLibraryStructs(p) {
 			return r.opaqueSort(named)
 		}
 	}
@@ -249,4 +249,11 @@ func intRange(t types.Type) (lo, hi string, ok bool) {
 		return "(- 9223372036854775808)", "9223372036854775807", true
 	}
 	return "", "", false
+}
+
+// modelledLibraryStructs: library packages whose struct types are plain data (generated protobuf messages) and
+// are modelled field by field like the repository's own structs; their internal bookkeeping fields
+// (protoimpl.MessageState, ...) are themselves library structs and stay opaque.
+func modelledLibraryStructs(pkgPath string) bool {
+	return strings.Contains(pkgPath, "bazelbuild/remote-apis/build/bazel/remote/execution/")
 }
